@@ -44,7 +44,7 @@ def scan_forbidden():
     return bad
 
 
-EXTRA_MODULES = {"C01": ["C01c", "H1", "Ctl", "ExportGen"], "C02": ["H1", "Ctl"], "C04": ["C04c", "Ctl", "NomGen"], "C05": ["Ctl", "NomGen"], "C06": ["C06Refine", "C06c", "H1", "Ctl", "NomGen"], "C07": ["C07b", "C07c", "C07d", "H1", "Ctl"],
+EXTRA_MODULES = {"C01": ["C01c", "H1", "Ctl", "ExportGen"], "C02": ["H1", "Ctl"], "C04": ["C04c", "Ctl", "NomGen"], "C05": ["Ctl", "NomGen"], "C06": ["C06Refine", "C06c", "C07d", "H1", "Ctl", "NomGen"], "C07": ["C07b", "C07c", "C07d", "H1", "Ctl"],
                  "C08": ["C08b"], "C09": ["Ctl", "ExportGen"], "C10": ["Ctl", "ExportGen"], "C11": ["Ctl"], "C12": ["H1", "Ctl"], "C13": ["C13b", "C13c"], "C14": ["C14b", "H1", "Ctl"], "C15": ["C15b", "C15c", "C15d", "Ctl"],
                  "C16": ["C16b", "C16c", "SerdeGen", "H1"], "C17": ["C17b", "Ctl"]}
 SHARED_MODULES = {"H1", "Ctl", "ExportGen", "NomGen"}                     # modules holding theorems of several properties: only the `Cnn_…` ones count for Cnn     # further theorem files that belong to a property
